@@ -53,7 +53,7 @@ type Step struct {
 	Get  bool   `json:"get"`  // use the GET transport
 }
 
-var forms = []string{"text", "text+hash", "text+wronghash", "hash", "malformed", "version", "upperhash"}
+var forms = []string{"text", "text+hash", "text+wronghash", "hash", "malformed", "version", "upperhash", "blank+hash"}
 
 func alphabet() []Step {
 	var out []Step
@@ -61,7 +61,7 @@ func alphabet() []Step {
 		out = append(out, Step{Form: "text", Text: ti}, Step{Form: "text+hash", Text: ti}, Step{Form: "hash", Text: ti})
 		out = append(out, Step{Form: "text+wronghash", Text: ti, Alt: (ti + 1) % len(texts)})
 	}
-	out = append(out, Step{Form: "malformed", Text: 0}, Step{Form: "version", Text: 0}, Step{Form: "upperhash", Text: 0})
+	out = append(out, Step{Form: "malformed", Text: 0}, Step{Form: "version", Text: 0}, Step{Form: "upperhash", Text: 0}, Step{Form: "blank+hash", Text: 0}, Step{Form: "blank+hash", Text: 1})
 	return out
 }
 
@@ -94,6 +94,10 @@ func (st Step) request() hsrv.Req {
 	case "upperhash":
 		r.Query, r.HasQuery = t, true
 		r.Extensions = ext(strings.ToUpper(hashOf(t)), 1)
+	case "blank+hash":
+		// a text is sent, and it is not the one that hashes to the hash: blanks only
+		r.Query, r.HasQuery = " \n", true
+		r.Extensions = ext(hashOf(t), 1)
 	}
 	return r
 }
@@ -213,7 +217,7 @@ func check(c Case) *vfrun.Failure {
 			}
 			reg[hashOf(t)] = t
 			sawReg = true
-		case "text+wronghash", "upperhash", "malformed", "version":
+		case "text+wronghash", "upperhash", "malformed", "version", "blank+hash":
 			if executed != "" || !hasErrors {
 				return vfrun.Failf("apq.mismatch-executed", "%s: request must be rejected and execute nothing; ran %q body %s", desc, roots, errText)
 			}
